@@ -207,22 +207,34 @@ class Counter:
             raise self.api.HarnessHang("count cap")
 
 
+# the entry points that run the matcher on a RegExp object (script level); R = new RegExp(P, F), S = the subject
+OPS_JS = {
+    "test": "R.test(S)", "exec": "R.exec(S)", "match": "S.match(R)", "search": "S.search(R)", "replace": "S.replace(R, '-')",
+    "replaceAll": "S.replaceAll(R, '-')", "split": "S.split(R)",
+}
+
+
 def run_driver(case, api):
-    """case = {id, src, subject:{unit, n, tail}, mode, cap, deadline}"""
-    from microjs.regex import RegExp, RegexTimeoutError
+    """One matching run, counted through the guarded hook.
+    case = {id, src, unit, n, tail, cap, wall, cfg: {mode: "api" | "script", deadline (steps, 0 = none),
+            api: interval (poll_interval of the package API); script: op, fl, form ("bare" | "try")}}
+    Deadlines are virtual: in api mode the poll callback says stop once the hook has counted `deadline` steps, in script mode the
+    context has time_limit = deadline virtual seconds and the clock advances one second per hooked step (VM or regex), so "how long
+    did the matcher go on after the deadline" is a number of steps (late), not a time."""
+    from microjs.regex import RegExp
     src = wire.from_units(case["src"])
     subject = wire.from_units(case["unit"]) * case["n"] + wire.from_units(case["tail"])
-    mode = case["mode"]
+    cfg = case["cfg"]
+    D = int(cfg["deadline"])
     cnt = Counter(api, case["cap"])
     polls = [0]
-    out_code, ty = "?", ""
-    if mode.startswith("api"):
-        deadline = case["deadline"] if mode == "api-deadline" else None
-
+    out_code, ty, late = "?", "", 0
+    out = {}
+    if cfg["mode"] == "api":
         def cb():
             polls[0] += 1
-            return deadline is not None and polls[0] > deadline
-        r = RegExp(src, "", poll_callback=cb, poll_interval=1)
+            return D > 0 and cnt.total >= D
+        r = RegExp(src, "", poll_callback=cb, poll_interval=int(cfg["interval"]))
 
         def go():
             api.steps.user = cnt
@@ -231,6 +243,7 @@ def run_driver(case, api):
             finally:
                 api.steps.user = None
         out = api.run(go, wall=case.get("wall", 300.0), cap=10**12)
+        late = max(0, cnt.total - D) if D > 0 else 0
         if out["o"] == "value":
             out_code = "null" if out["pv"] is None else "match"
         elif out["o"] == "hang":
@@ -242,21 +255,37 @@ def run_driver(case, api):
         else:
             out_code, ty = out["o"], str(out.get("type", ""))
     else:
-        T = case["deadline"] if mode == "script-deadline" else None
-        ctx = api.new_context(time_limit=(T * 1e-3 if T else None))
+        ctx = api.new_context(time_limit=(float(D) if D else None))
+        got = []
+        ctx.set("__out", lambda *a: (got.append(str(a[0])), None)[1])
+        api.eval_outcome(ctx, CLASSIFY_JS, wall=10.0)
         ctx.set("P", src)
+        ctx.set("F", wire.from_units(cfg["fl"]))
         ctx.set("S", subject)
+        body = "var R = new RegExp(P, F); var v = %s; __out(v === null ? 'null' : v === false ? 'false' : v === true ? 'true' : 'v');" % OPS_JS[cfg["op"]]
+        if cfg["form"] == "try":
+            body = "try { " + body + " } catch (e) { __out('caught:' + __cls(e)); }"
 
         def go2():
             api.steps.user = cnt
             try:
-                return ctx.eval("var R = new RegExp(P); R.test(S);")
+                return ctx.eval(body)
             finally:
                 api.steps.user = None
-        # virtual clock: one tick (1 ms) per hooked step, so the deadline passes after T steps
-        out = api.run(go2, wall=case.get("wall", 300.0), cap=10**12, tick=(1e-3 if T else 0.0), deadline=(T * 1e-3 if T else None))
+        out = api.run(go2, wall=case.get("wall", 300.0), cap=10**12, tick=(1.0 if D else 0.0), deadline=(float(D) if D else None))
+        lt = api.steps.late
+        late = lt["re"] + lt["la"] + lt["lb"]
         if out["o"] == "value":
-            out_code = "match" if out["pv"] is True else ("null" if out["pv"] is False else "badvalue")
+            if len(got) != 1:
+                out_code, ty = "noresult", str(got)[:80]
+            elif got[0].startswith("caught:"):
+                out_code, ty = "caught", got[0][7:]            # the script's catch clause received an error of this class
+            elif cfg["op"] == "test":
+                out_code = {"true": "match", "false": "null"}.get(got[0], "badvalue")
+            elif cfg["op"] in ("exec", "match"):
+                out_code = "null" if got[0] == "null" else ("match" if got[0] == "v" else "badvalue")
+            else:
+                out_code = "value"                             # search: a number, replace: a string, split: an array (not judged further)
         elif out["o"] == "hang":
             out_code = "capped" if "count cap" in out.get("why", "") else "hang"
         elif out["o"] == "timelimit":
@@ -267,7 +296,7 @@ def run_driver(case, api):
             out_code, ty = out["o"], str(out.get("type", out.get("name", "")))
     api.steps.user = None
     return {"id": case["id"], "out": out_code, "ty": ty, "attempts": cnt.attempts, "steps": cnt.steps, "maxstep": cnt.maxstep,
-            "maxstack": cnt.maxstack, "polls": polls[0], "len": len(subject)}
+            "maxstack": cnt.maxstack, "polls": polls[0], "late": late, "len": len(subject), "where": str(out.get("where", ""))}
 
 
 FOLD_JS = {
